@@ -16,7 +16,7 @@ from vmon.libutil import load_definition, monitored
 
 LEVEL = "exploration"
 SHARDS = {"quick": 16, "thorough": 16}
-MUST = ["lockstep.rounds", "stream.clean_clean_bad_clean", "yielded.clean", "yielded.flagged", "withheld.bad", "model.exact", "model.under", "model.over", "model.negative",
+MUST = ["offers.show_progress", "offers.file_object", "lockstep.rounds", "stream.clean_clean_bad_clean", "yielded.clean", "yielded.flagged", "withheld.bad", "model.exact", "model.under", "model.over", "model.negative",
         "reads.logged", "reads.negative_width", "reads.past_end", "repeated.streams", "reparse.same_raw_object"]
 RULE = ("case = (generated document, packet whose length is what the definition consumes -9..+9 bytes, or whose "
         "length-controlling fields make a computed size 0 or negative, parse_bad_pkts in {True, False}); each packet is "
@@ -69,9 +69,23 @@ def offer(ctx, defn, info, raw, out, parse_bad, has_dyn, wit_extra):
     """one packet as its own stream"""
     _state["log"].clear()
     _state["attempts"] = []
-    g = defn.packet_generator(raw, parse_bad_pkts=parse_bad)
-    s = monitored(next, g)
-    g.close()
+    # display / buffering options have no say in whether a packet is flagged: one offer in three runs with show_progress=True,
+    # one in five through a file object with a small read size
+    opt = {}
+    if ctx.counters["evaluations"] % 3 == 0:
+        opt["show_progress"] = True
+        ctx.count("offers.show_progress")
+    src = raw
+    if ctx.counters["evaluations"] % 5 == 0:
+        import io as _io
+        src = _io.BytesIO(raw)
+        opt["buffer_read_size_bytes"] = 7
+        ctx.count("offers.file_object")
+    import contextlib, io as _io2
+    with contextlib.redirect_stdout(_io2.StringIO()):
+        g = defn.packet_generator(src, parse_bad_pkts=parse_bad, **opt)
+        s = monitored(next, g)
+        g.close()
     ctx.count("evaluations")
     ctx.count(f"model.{out.consumption if out.status in ('ok', 'error') else 'other'}" if out.status != "unrecognized" else "model.unrecognized")
     nbits_total = 8 * len(raw)
